@@ -65,3 +65,19 @@ def run(case, ctx):
             "shape": (len(set(n[0] for n in spec["notes"])), "shared" if shared else "-", min(collapsed, 3),
                       str(case["steps"]), case["style"]),
             "observed": {"notes_before": len(before["notes"]), "notes_after": len(after["notes"]), "moved": moved}}
+
+
+def _corpus_body(rng, k):
+    from vmon import corpus
+    desc, w = corpus.window(rng, min_len=48, max_len=500)
+    steps = rng.choice(STEPS)
+    desc["steps"] = steps
+    before = obs(w)
+    w.quantise(None if steps is None else list(steps))
+    after = obs(w)
+    return desc, before["events"] != after["events"]
+
+
+def phases(tier):
+    from vmon import corpus
+    return [("corpus", corpus.phase(300, 20000, _corpus_body))]
